@@ -54,7 +54,7 @@ def enc(s: str | bytes) -> str:
     out = []
     for c in b:
         ch = chr(c)
-        if ch.isalnum() or ch in "/._-+=:@,~":
+        if 33 <= c < 127 and ch not in "%,>|":
             out.append(ch)
         else:
             out.append("%%%02x" % c)
